@@ -544,6 +544,9 @@ func init() {
 	reg("time.Now", func(in *Interp, fr *frame, fn *ssa.Function, args []Value) Value {
 		return in.now()
 	})
+	reg(rtPkg+".Now", func(in *Interp, fr *frame, fn *ssa.Function, args []Value) Value {
+		return in.now()
+	})
 	reg("time.Since", func(in *Interp, fr *frame, fn *ssa.Function, args []Value) Value {
 		now := in.now()
 		sub := in.prog.LookupMethod(in.namedType("time", "Time"), nil, "Sub")
@@ -585,21 +588,27 @@ func (in *Interp) now() Value {
 	if in.initMode > 0 {
 		in.unsupported("time.Now during package init")
 	}
-	sec := in.freshVar("now.sec", 64)
-	nsec := in.freshVar("now.nsec", 32)
-	in.record("now", "time", []*T{sec, nsec}, 0)
-	// plausible range: 2001..2242, so that UnixNano does not overflow
-	in.assume(tb.And(tb.ULe(tb.BV(64, 1<<30), sec), tb.ULt(sec, tb.BV(64, 1<<33))))
-	in.assume(tb.ULt(nsec, tb.BV(32, 1000000000)))
-	ns := tb.Add(tb.Mul(sec, tb.BV(64, 1000000000)), tb.ZExt(nsec, 64))
-	if in.lastNow != nil {
+	// structurally bounded: seconds fit 32 bits, nanoseconds are a remainder modulo 10^9
+	sec32 := in.freshVar("now.sec", 32)
+	nsv := in.freshVar("now.nsec", 32)
+	in.record("now", "time", []*T{sec32, nsv}, 0)
+	sec := tb.ZExt(sec32, 64)
+	nsec := tb.URem(nsv, tb.BV(32, 1000000000))
+	// plausible range: 2004..2106, so that UnixNano does not overflow
+	in.assume(tb.ULe(tb.BV(64, 1<<30), sec))
+	// monotone clock, stated lexicographically on (sec, nsec) so that no multiplication is involved
+	if in.lastSec != nil {
+		lt := tb.ULt(in.lastSec, sec)
+		eq := tb.Eq(in.lastSec, sec)
+		var sub *T
 		if in.cfg.Params["strictclock"] == 1 {
-			in.assume(tb.ULt(in.lastNow, ns))
+			sub = tb.ULt(in.lastNsec, nsec)
 		} else {
-			in.assume(tb.ULe(in.lastNow, ns))
+			sub = tb.ULe(in.lastNsec, nsec)
 		}
+		in.assume(tb.Or(lt, tb.And(eq, sub)))
 	}
-	in.lastNow = ns
+	in.lastSec, in.lastNsec = sec, nsec
 	// wall: no monotonic reading -> wall = nsec ; ext = seconds since year 1
 	ext := tb.Add(sec, tb.BV(64, uint64(unixToInternal)))
 	locG := in.prog.ImportedPackage("time").Var("Local")
